@@ -32,28 +32,31 @@ def renderedOf (j : Json) : Rendered :=
   ⟨strList j "txhashes", jbytes j "amount", jint j "block", jint j "start", jint j "end",
    jbytes j "bid_digest", jbytes j "bid_sig", jbytes j "digest", jbytes j "sig", jbytes j "provider"⟩
 
+def statusStr : Status → String
+  | .ok => "ok" | .invalid => "invalid" | .internal => "internal"
+
 def handle (inp impl : Json) : CaseResult :=
   let r := reqOf inp
   let cs := (jarr inp "commits").toList.map commitOf
-  let fw := forwarded r
-  let model := match fw with
-    | some f => mkObj [("status", "ok"), ("forwarded", Json.arr #[fwdJson f]),
-        ("streamed", Json.arr (cs.map (fun c => renderedJson (render c))).toArray), ("panic", false)]
-    | none => mkObj [("status", "invalid"), ("forwarded", Json.arr #[]), ("streamed", Json.arr #[]), ("panic", false)]
+  let net := if jbool inp "sender_fails" then Net.fails else Net.commits cs
+  let o := handle1 r net
+  let model := mkObj [("status", statusStr o.status), ("forwarded", Json.arr (o.forwarded.map fwdJson).toArray),
+        ("streamed", Json.arr (o.streamed.map renderedJson).toArray), ("panic", false)]
   -- the property judged on the implementation's observations
   let st := jstr impl "status"
   let ifw := (jarr impl "forwarded").toList.map fwdOf
   let istr := (jarr impl "streamed").toList.map renderedOf
   let wellFormed := accept r
+  let own : Forwarded := ⟨joinComma r.txHashes, r.amount, r.blockNumber, r.decayStart, r.decayEnd⟩
+  let wantStreamed := if jbool inp "sender_fails" then [] else cs.map render
+  let wantStatus := if jbool inp "sender_fails" then "internal" else "ok"
   let ok := !(jbool impl "panic") &&
-    (if wellFormed then
-      st == "ok" && ifw == [⟨joinComma r.txHashes, r.amount, r.blockNumber, r.decayStart, r.decayEnd⟩] &&
-      istr == cs.map render
+    (if wellFormed then st == wantStatus && ifw == [own] && istr == wantStreamed
      else st == "invalid" && ifw.isEmpty && istr.isEmpty)
   { model := model, spec := ok,
     why := if ok then "" else
       if !wellFormed then "malformed-request-not-rejected-before-sending"
-      else if st != "ok" then "wellformed-request-rejected"
-      else if ifw != [⟨joinComma r.txHashes, r.amount, r.blockNumber, r.decayStart, r.decayEnd⟩] then "bid-not-forwarded-verbatim"
+      else if ifw != [own] then "bid-not-forwarded-verbatim"
+      else if st != wantStatus then (if st == "invalid" then "wellformed-request-rejected" else "wrong-status-for-the-hand-over")
       else "commitment-not-rendered-verbatim" }
 end Driver.C19
